@@ -179,4 +179,131 @@ theorem andoyer_antipodal (a fe : ℝ) {sin2g cos2g cos2f sin2f sin2lam cos2lam 
   unfold andoyer
   simp only [peq, e0, hs, decide_false, Bool.false_eq_true, if_false, fdiv, hc, decide_true, if_true]
 
+
+/-! ### structure of the Andoyer arguments: `s + c = 1` (haversine) -/
+
+/-- With the six squares of `Earth.distance`, `s + c = 1`: `s` is the haversine of the spherical distance. -/
+theorem s_add_c (f g l : ℝ) :
+    (Real.sin g ^ 2 * Real.cos l ^ 2 + Real.cos f ^ 2 * Real.sin l ^ 2)
+      + (Real.cos g ^ 2 * Real.cos l ^ 2 + Real.sin f ^ 2 * Real.sin l ^ 2) = 1 := by
+  nlinarith [Real.sin_sq_add_cos_sq f, Real.sin_sq_add_cos_sq g, Real.sin_sq_add_cos_sq l]
+
+/-- `arctan (sqrt (s / (1 - s))) = arcsin (sqrt s)` for `0 ≤ s < 1`. -/
+theorem arctan_sqrt_ratio {s : ℝ} (h0 : 0 ≤ s) (h1 : s < 1) :
+    Real.arctan (Real.sqrt (s / (1 - s))) = Real.arcsin (Real.sqrt s) := by
+  have hs1 : Real.sqrt s < 1 := by
+    rw [show (1:ℝ) = Real.sqrt 1 from Real.sqrt_one.symm]; exact Real.sqrt_lt_sqrt h0 h1
+  have hs0 := Real.sqrt_nonneg s
+  have hx : Real.sqrt s ∈ Set.Ioo (-1 : ℝ) 1 := ⟨by linarith, hs1⟩
+  rw [Real.arcsin_eq_arctan hx, Real.sq_sqrt h0, Real.sqrt_div h0]
+
+
+/-- `R = sqrt(s c)/ω` lies in `(0, 1]` (it is `sin(2ω)/(2ω)`), for `s + c = 1`, `s, c > 0`, `ω = atan sqrt(s/c)`. -/
+theorem R_range {s c : ℝ} (hs : 0 < s) (hc : 0 < c) (hsc : s + c = 1) :
+    0 < Real.sqrt (s * c) / Real.arctan (Real.sqrt (s / c)) ∧
+    Real.sqrt (s * c) / Real.arctan (Real.sqrt (s / c)) ≤ 1 := by
+  have hc' : c = 1 - s := by linarith
+  have hom : Real.arctan (Real.sqrt (s / c)) = Real.arcsin (Real.sqrt s) := by
+    rw [hc']; exact arctan_sqrt_ratio hs.le (by linarith)
+  rw [hom]
+  have hs1 : Real.sqrt s ≤ 1 := by rw [Real.sqrt_le_left (by norm_num)]; linarith
+  have hsp : 0 < Real.sqrt s := Real.sqrt_pos.mpr hs
+  have hpos : 0 < Real.arcsin (Real.sqrt s) := Real.arcsin_pos.mpr hsp
+  have hsin : Real.sin (Real.arcsin (Real.sqrt s)) = Real.sqrt s := Real.sin_arcsin (by linarith) hs1
+  have hle : Real.sqrt s ≤ Real.arcsin (Real.sqrt s) := by
+    have := Real.sin_le hpos.le; rwa [hsin] at this
+  have hcs : Real.sqrt c ≤ 1 := by rw [Real.sqrt_le_left (by norm_num)]; linarith
+  have hnum : Real.sqrt (s * c) ≤ Real.arcsin (Real.sqrt s) := by
+    rw [Real.sqrt_mul hs.le]
+    calc Real.sqrt s * Real.sqrt c ≤ Real.sqrt s * 1 := by
+          apply mul_le_mul_of_nonneg_left hcs hsp.le
+      _ = Real.sqrt s := mul_one _
+      _ ≤ _ := hle
+  exact ⟨div_pos (Real.sqrt_pos.mpr (mul_pos hs hc)) hpos, (div_le_one hpos).mpr hnum⟩
+
+/-- The flattening correction of Andoyer's formula lies in `[-5/2, 1]`. -/
+theorem correction_range {s c P Q R : ℝ} (hs : 0 < s) (hc : 0 < c) (hP0 : 0 ≤ P) (hPc : P ≤ c) (hQ0 : 0 ≤ Q) (hQs : Q ≤ s)
+    (hR0 : 0 < R) (hR1 : R ≤ 1) :
+    -(5 / 2) ≤ (3 * R - 1) / (2 * c) * P - (3 * R + 1) / (2 * s) * Q ∧
+    (3 * R - 1) / (2 * c) * P - (3 * R + 1) / (2 * s) * Q ≤ 1 := by
+  obtain ⟨p, hp⟩ : ∃ p, p = P / c := ⟨_, rfl⟩
+  obtain ⟨q, hq⟩ : ∃ q, q = Q / s := ⟨_, rfl⟩
+  have hp0 : 0 ≤ p := by rw [hp]; positivity
+  have hp1 : p ≤ 1 := by rw [hp]; exact (div_le_one hc).mpr hPc
+  have hq0 : 0 ≤ q := by rw [hq]; positivity
+  have hq1 : q ≤ 1 := by rw [hq]; exact (div_le_one hs).mpr hQs
+  have e : (3 * R - 1) / (2 * c) * P - (3 * R + 1) / (2 * s) * Q = (3 * R - 1) / 2 * p - (3 * R + 1) / 2 * q := by
+    rw [hp, hq]; field_simp
+  rw [e]
+  constructor <;> nlinarith [mul_nonneg hp0 hR0.le, mul_nonneg hq0 hR0.le, mul_nonneg (sub_nonneg.mpr hp1) hR0.le,
+    mul_nonneg (sub_nonneg.mpr hq1) hR0.le]
+
+/-- `sin²F cos²G ≤ c` and `cos²F sin²G ≤ s` -/
+theorem PQ_le (F G L : ℝ) :
+    Real.sin F ^ 2 * Real.cos G ^ 2 ≤ Real.cos G ^ 2 * Real.cos L ^ 2 + Real.sin F ^ 2 * Real.sin L ^ 2 ∧
+    Real.cos F ^ 2 * Real.sin G ^ 2 ≤ Real.sin G ^ 2 * Real.cos L ^ 2 + Real.cos F ^ 2 * Real.sin L ^ 2 := by
+  have hF := Real.sin_sq_add_cos_sq F
+  have hG := Real.sin_sq_add_cos_sq G
+  have hL := Real.sin_sq_add_cos_sq L
+  have a1 := sq_nonneg (Real.sin F); have a2 := sq_nonneg (Real.cos F)
+  have a3 := sq_nonneg (Real.sin G); have a4 := sq_nonneg (Real.cos G)
+  have a5 := sq_nonneg (Real.sin L); have a6 := sq_nonneg (Real.cos L)
+  constructor
+  · have : Real.cos G ^ 2 * Real.cos L ^ 2 + Real.sin F ^ 2 * Real.sin L ^ 2 - Real.sin F ^ 2 * Real.cos G ^ 2
+        = Real.cos G ^ 2 * Real.cos L ^ 2 * Real.cos F ^ 2 + Real.sin F ^ 2 * Real.sin L ^ 2 * Real.sin G ^ 2 := by
+      have h1 : Real.cos F ^ 2 = 1 - Real.sin F ^ 2 := by linarith
+      have h2 : Real.sin G ^ 2 = 1 - Real.cos G ^ 2 := by linarith
+      have h3 : Real.cos L ^ 2 = 1 - Real.sin L ^ 2 := by linarith
+      rw [h1, h2, h3]; ring
+    have : 0 ≤ Real.cos G ^ 2 * Real.cos L ^ 2 * Real.cos F ^ 2 + Real.sin F ^ 2 * Real.sin L ^ 2 * Real.sin G ^ 2 := by positivity
+    linarith
+  · have : Real.sin G ^ 2 * Real.cos L ^ 2 + Real.cos F ^ 2 * Real.sin L ^ 2 - Real.cos F ^ 2 * Real.sin G ^ 2
+        = Real.sin G ^ 2 * Real.cos L ^ 2 * Real.sin F ^ 2 + Real.cos F ^ 2 * Real.sin L ^ 2 * Real.cos G ^ 2 := by
+      have h1 : Real.sin F ^ 2 = 1 - Real.cos F ^ 2 := by linarith
+      have h2 : Real.cos G ^ 2 = 1 - Real.sin G ^ 2 := by linarith
+      have h3 : Real.cos L ^ 2 = 1 - Real.sin L ^ 2 := by linarith
+      rw [h1, h2, h3]; ring
+    have : 0 ≤ Real.sin G ^ 2 * Real.cos L ^ 2 * Real.sin F ^ 2 + Real.cos F ^ 2 * Real.sin L ^ 2 * Real.cos G ^ 2 := by positivity
+    linarith
+
+
+/-- Joint constraint of the two correction terms: `P s + Q c ≤ s c`, i.e. `P/c + Q/s ≤ 1`; the difference is
+    `cos²L sin²L (sin²F + sin²G − 1)²`. -/
+theorem PQ_joint (F G L : ℝ) :
+    (Real.sin F ^ 2 * Real.cos G ^ 2) * (Real.sin G ^ 2 * Real.cos L ^ 2 + Real.cos F ^ 2 * Real.sin L ^ 2)
+      + (Real.cos F ^ 2 * Real.sin G ^ 2) * (Real.cos G ^ 2 * Real.cos L ^ 2 + Real.sin F ^ 2 * Real.sin L ^ 2)
+      ≤ (Real.sin G ^ 2 * Real.cos L ^ 2 + Real.cos F ^ 2 * Real.sin L ^ 2)
+        * (Real.cos G ^ 2 * Real.cos L ^ 2 + Real.sin F ^ 2 * Real.sin L ^ 2) := by
+  have hF : Real.cos F ^ 2 = 1 - Real.sin F ^ 2 := by linarith [Real.sin_sq_add_cos_sq F]
+  have hG : Real.cos G ^ 2 = 1 - Real.sin G ^ 2 := by linarith [Real.sin_sq_add_cos_sq G]
+  have hL : Real.cos L ^ 2 = 1 - Real.sin L ^ 2 := by linarith [Real.sin_sq_add_cos_sq L]
+  have hz0 := sq_nonneg (Real.sin L)
+  have hz1 : Real.sin L ^ 2 ≤ 1 := Real.sin_sq_le_one L
+  rw [hF, hG, hL]
+  generalize Real.sin F ^ 2 = x
+  generalize Real.sin G ^ 2 = y
+  generalize Real.sin L ^ 2 = z at hz0 hz1 ⊢
+  have key : (y * (1 - z) + (1 - x) * z) * ((1 - y) * (1 - z) + x * z)
+      - (x * (1 - y) * (y * (1 - z) + (1 - x) * z) + (1 - x) * y * ((1 - y) * (1 - z) + x * z))
+      = (1 - z) * z * (x + y - 1) ^ 2 := by ring
+  have : 0 ≤ (1 - z) * z * (x + y - 1) ^ 2 := by
+    apply mul_nonneg (mul_nonneg (by linarith) hz0) (sq_nonneg _)
+  linarith
+
+/-- With the joint constraint the flattening correction lies in `[-2, 1]`. -/
+theorem correction_range_joint {s c P Q R : ℝ} (hs : 0 < s) (hc : 0 < c) (hP0 : 0 ≤ P) (hQ0 : 0 ≤ Q)
+    (hPQ : P * s + Q * c ≤ s * c) (hR0 : 0 < R) (hR1 : R ≤ 1) :
+    -2 ≤ (3 * R - 1) / (2 * c) * P - (3 * R + 1) / (2 * s) * Q ∧
+    (3 * R - 1) / (2 * c) * P - (3 * R + 1) / (2 * s) * Q ≤ 1 := by
+  obtain ⟨p, hp⟩ : ∃ p, p = P / c := ⟨_, rfl⟩
+  obtain ⟨q, hq⟩ : ∃ q, q = Q / s := ⟨_, rfl⟩
+  have hp0 : 0 ≤ p := by rw [hp]; positivity
+  have hq0 : 0 ≤ q := by rw [hq]; positivity
+  have hpq : p + q ≤ 1 := by
+    rw [hp, hq, div_add_div _ _ hc.ne' hs.ne', div_le_one (by positivity)]; linarith
+  have e : (3 * R - 1) / (2 * c) * P - (3 * R + 1) / (2 * s) * Q = (3 * R - 1) / 2 * p - (3 * R + 1) / 2 * q := by
+    rw [hp, hq]; field_simp
+  rw [e]
+  constructor <;> nlinarith [mul_nonneg hp0 hR0.le, mul_nonneg hq0 hR0.le]
+
 end Pymeeus.Refine.Ellipsoid
